@@ -10,6 +10,7 @@
    (the data-count pre-reservation path), function signatures through the type de-duplication. *)
 From Coq Require Import List NArith ZArith Bool Arith. Import ListNotations.
 From WV Require Import Gen.Ops Gen.Attrs Model.Common Model.IR Model.Arena Model.ModuleM Model.ParseM Model.EmitM.
+From WV Require Import Proofs.GcDeclare.
 From WV Require Import Proofs.IndexMaps Proofs.Structure.
 Local Open Scope nat_scope.
 
@@ -224,7 +225,7 @@ Theorem c04_renumbering_after_gc_injective :
          emitM m' ilen dw = Ok e' ->
          forall (S : space) (i i' j : N),
          S <> S_type -> S <> S_local -> rho s e' S i = Ok j -> rho s e' S i' = Ok j -> i = i'.
-Proof. exact rho_gc_inj. Qed.
+Proof. exact rho_gc_inj_full. Qed.
 
 Theorem c04_renumbering_after_gc_defined_on_kept :
   forall (cf : config) (ver : list N) (w : wmod) (s : pst) (ilen : wins -> N) 
@@ -237,7 +238,7 @@ Theorem c04_renumbering_after_gc_defined_on_kept :
            (forall (S : space) (i : N),
             S <> S_type ->
             S <> S_local -> (exists j : N, rho s e' S i = Ok j) <-> (N.to_nat i < n_in s S)%nat /\ In (S, i) u).
-Proof. exact rho_gc_defined. Qed.
+Proof. exact rho_gc_defined_full. Qed.
 
 
 (* ---- every function of a parsed module has an emitted index (no GC), so the signature theorem holds without its side premises; the
@@ -292,6 +293,14 @@ Theorem c04_function_renumbering_bijective :
 Proof. exact func_renumbering_bijective. Qed.
 
 
+(* ---- the value-type conversions of src/ty.rs, REGENERATED arm by arm (Gen/ValTypes.v): emitting and re-parsing a value type gives it back;
+   two different binary types never become the same walrus type *)
+From WV Require Import Gen.Ops Gen.ValTypes Proofs.ValTypes.
+Theorem c04_value_types_roundtrip : forall v : valty, gen_vt_parse (gen_vt_emit v) = Some v.
+Proof. exact vt_emit_parse. Qed.
+Theorem c04_value_types_parse_injective : forall (x y : xvalty) (v : valty), gen_vt_parse x = Some v -> gen_vt_parse y = Some v -> x = y.
+Proof. exact vt_parse_injective. Qed.
+
 Print Assumptions c04_attr_table_local.
 Print Assumptions c04_attr_table_import.
 Print Assumptions c04_attr_memory_local.
@@ -325,3 +334,5 @@ Print Assumptions c04_renumbering_after_gc_defined_on_kept.
 Print Assumptions c04_every_function_emitted.
 Print Assumptions c04_function_signatures_unconditional.
 Print Assumptions c04_function_renumbering_bijective.
+Print Assumptions c04_value_types_roundtrip.
+Print Assumptions c04_value_types_parse_injective.
